@@ -36,7 +36,11 @@ Inductive vexpr :=
 | XProbs (kind m : vexpr)                 (* get_probs(weights, M): 'degree' -> M.1 / sum, 'uniform' -> 1 / n *)
 | XMembership (labels : vexpr)            (* get_membership(labels): n x (max label + 1) indicator matrix, negative labels ignored *)
 | XDiagonal (a : vexpr)                   (* M.diagonal() *)
-| XSum (a : vexpr).                       (* v.sum(), M.sum(), M.data.sum() *)
+| XSum (a : vexpr)                        (* v.sum(), M.sum(), M.data.sum() *)
+(* --- clustering/base.py: _secondary_outputs (C05) --- *)
+| XNLabels (a : vexpr)                    (* max(labels) + 1                       -> count *)
+| XNLabels2 (a b : vexpr)                 (* max(max(a), max(b)) + 1               -> count *)
+| XMembershipN (labels n : vexpr).        (* get_membership(labels, n_labels=n) *)
 
 Section Carrier.
   Context {T : Type}.
@@ -187,6 +191,23 @@ Section Carrier.
             Some (WM (List.length l) kk (fun i c => if Z.eqb (nth i l (-1)%Z) (Z.of_nat c) then t1 else t0))
         | _ => None
         end
+    | XNLabels a =>
+        match vdenote r a with
+        | Some (WLab l) => Some (WN (Z.to_nat (fold_right Z.max (-1)%Z l + 1)))
+        | _ => None
+        end
+    | XNLabels2 a b =>
+        match vdenote r a, vdenote r b with
+        | Some (WLab l), Some (WLab l') =>
+            Some (WN (Z.to_nat (Z.max (fold_right Z.max (-1)%Z l) (fold_right Z.max (-1)%Z l') + 1)))
+        | _, _ => None
+        end
+    | XMembershipN a nn =>
+        match vdenote r a, vdenote r nn with
+        | Some (WLab l), Some (WN kk) =>
+            Some (WM (List.length l) kk (fun i c => if Z.eqb (nth i l (-1)%Z) (Z.of_nat c) then t1 else t0))
+        | _, _ => None
+        end
     | XDiagonal a =>
         match vdenote r a with
         | Some (WM n k f) => Some (WV (Nat.min n k) (fun i => f i i))
@@ -236,3 +257,11 @@ Definition qenv_modularity (A : list (list Q)) (n : nat) (labels : list Z) (degr
   ("resolution", WS resolution) :: nil.
 Definition qsresult (v : option (vvalue Q)) : list Q :=
   match v with Some (WS x) => [Qred x] | _ => [] end.
+
+(** environments of _secondary_outputs: square case (adjacency, labels) and bipartite case (biadjacency, row / column labels) *)
+Definition qenv_secondary (A : list (list Q)) (n : nat) (labels : list Z) : venv :=
+  ("input_matrix", wmat 0%Q A n n) :: ("self.labels_", WLab labels) :: nil.
+Definition qenv_secondary_bip (B : list (list Q)) (n1 n2 : nat) (lr lc : list Z) : venv :=
+  ("input_matrix", wmat 0%Q B n1 n2) :: ("self.labels_row_", WLab lr) :: ("self.labels_col_", WLab lc) :: nil.
+Definition qmresult (v : option (vvalue Q)) : list (list Q) :=
+  match v with Some (WM n k f) => map (fun i => map (fun j => Qred (f i j)) (seq 0 k)) (seq 0 n) | _ => [] end.
